@@ -501,8 +501,14 @@ def apply_and_judge(ctx, name, consts, args, ins, vals, vtol, dtol, libcall, mec
         bad = [n for n in res.names if (n in res.covobs and not np.all(np.isfinite(res.covobs[n].grad))) or (n not in res.covobs and not np.all(np.isfinite(res.deltas[n])))]
         if bad and all(np.isfinite(g) for g in grads):
             ctx.ev()
-            ctx.violation(mech + ':derivative-not-finite-at-a-regular-point', {'function': name, 'parameters': list(consts), 'arguments': vals, 'reference_gradient': grads,
-                                                                            'value': repr(res.value)})
+            tag = mech + ':derivative-not-finite-at-a-regular-point'
+            if name == 'rgamma' and not (len(vals) == 1 and float(vals[0]).is_integer() and vals[0] <= 0):
+                # the known mechanism is the rule -rgamma * psi = 0 * inf AT the zeros of 1/Gamma (0, -1, -2, ...); a non-finite
+                # derivative of rgamma anywhere else is something else and gets its own tag
+                tag = mech + ':derivative-not-finite-away-from-the-zeros-of-1/Gamma'
+            ctx.violation(tag, {'function': name, 'parameters': list(consts), 'arguments': vals, 'reference_gradient': grads, 'value': repr(res.value)})
+            # the value and the replica means are still judged (a wrong value at these points is another failure)
+            ctx.close(res.value, fval, mech + ':value', 'value at %r' % (vals,), rtol=vtol, scale=max(abs(fval), sum(abs(g * v) for g, v in zip(grads, vals))), atol=1e-300)
             return None, None, None
     if not exact_point and name != 'gammasgn' and any(abs(g) < 1e-5 * abs(fval) / max(abs(v), 1.0) for k, (g, v) in enumerate(zip(grads, vals)) if k not in zero_gradient_slots):
         # an extremum of f within rounding: the double-precision derivative has no relative accuracy there (borderline, not judged)
